@@ -9,10 +9,10 @@
    * observer: obs = R_WbMem monitor state, fed the per-cycle bus sample; invariants: no clause broken (lastbad = {}),
      backing memory allowed by the monitor whenever the system is quiescent, an open access is acknowledged within WMAX. *)
 EXTENDS D_Wb2Native, D_WbEq, R_WbMem, TLC
-CONSTANTS PATH, R, NW, SELS, HOLD, VALS, LMIN, LMAX, STALL, WMAX, BUG
+CONSTANTS PATH, R, NW, SELS, HOLD, VALS, COVER, LMIN, LMAX, STALL, WMAX, BUG
 \* PATH = "narrow": D_Wb2Native with R lanes;  PATH = "equal": D_WbEq (R must be 1; BUG is its VAR)
-VARIABLES r, m, mo, mem, q, stallc, obs, lastbad, wcnt
-vars == <<r, m, mo, mem, q, stallc, obs, lastbad, wcnt>>
+VARIABLES r, m, mo, mem, q, stallc, obs, lastbad, wcnt, seen
+vars == <<r, m, mo, mem, q, stallc, obs, lastbad, wcnt, seen>>
 
 NA == R * NW
 Cfg == [wb |-> 1, pb |-> R, base |-> 0, bound |-> WMAX]
@@ -26,7 +26,7 @@ Init == /\ r = IF Narrow THEN BInit(R) ELSE EInit
         /\ mo = [cmd_ready |-> 0, wdata_ready |-> 0, rdata_valid |-> 0, rdata |-> Garbage]
         /\ mem = [B \in 0..NA - 1 |-> BmInitByte(B)]
         /\ q = <<>> /\ stallc = 0
-        /\ obs = WbInit /\ lastbad = {} /\ wcnt = 0
+        /\ obs = WbInit /\ lastbad = {} /\ wcnt = 0 /\ seen = {}
 
 \* master outputs allowed in the next cycle, given the monitor state after this cycle
 \* symbolic data: a write always carries a value different from what the requirement currently allows at that byte
@@ -45,6 +45,24 @@ NextMaster(o2) ==
     IF o2.pend THEN {m, Idle(0)}
     ELSE {Idle(0)} \cup (IF HOLD THEN {Idle(1)} ELSE {}) \cup NewAccesses(o2)
     \* (o2.burst with the burst at the top address cannot continue: the master ends it by negating CYC or idling)
+
+\* vacuity guard: with COVER = TRUE the ghost variable seen collects the named situations met so far; the cover
+\* configuration (TLC -simulate) must VIOLATE CoverAll, i.e. exhibit one behaviour of this closed system that meets them all.
+Goals == (IF Narrow THEN
+            (IF r.fsm = "CMD" /\ m.cyc = 1 /\ m.stb = 1 /\ m.we = 0 /\ r.wr_valid = 0 /\ DwHit(R, r, [a |-> m.a]) THEN {"cache-hit"} ELSE {})
+            \cup (IF r.fsm = "READ_DATA" /\ r.aborted = 1 THEN {"aborted-read"} ELSE {})
+            \cup (IF r.fsm = "CMD" /\ r.wr_valid = 1 /\ m.cyc = 1 /\ m.stb = 1 /\ m.we = 1 /\ r.wr_addr = m.a \div R
+                     /\ r.wr_sel[DwMod(m.a, R) + 1] = 0 THEN {"merge"} ELSE {})
+            \cup (IF r.fsm = "CMD" /\ r.wr_valid = 1 /\ m.cyc = 1 /\ m.stb = 1 /\ m.we = 1 /\ r.wr_addr # m.a \div R THEN {"flush-other-word"} ELSE {})
+            \cup (IF r.fsm = "CMD" /\ r.wr_valid = 1 /\ m.cyc = 0 THEN {"flush-on-cyc-low"} ELSE {})
+            \cup (IF r.fsm = "WRITE_CMD" /\ m.cyc = 0 /\ obs.pend = FALSE /\ r.wr_valid = 1 THEN {"write-cmd-after-drop"} ELSE {})
+          ELSE
+            (IF r.fsm = "WRITE" /\ m.cyc = 0 THEN {"aborted-write"} ELSE {})
+            \cup (IF r.fsm = "READ" /\ r.aborted = 1 /\ m.cyc = 1 THEN {"new-access-behind-aborted-read"} ELSE {}))
+         \cup (IF \E B \in DOMAIN obs.mem : Cardinality(obs.mem[B]) > 1 THEN {"maybe-written-byte"} ELSE {})
+         \cup (IF obs.burst THEN {"burst"} ELSE {})
+AllGoals == IF Narrow THEN {"cache-hit", "aborted-read", "merge", "flush-other-word", "flush-on-cyc-low", "write-cmd-after-drop", "burst"}
+            ELSE {"aborted-write", "new-access-behind-aborted-read", "maybe-written-byte", "burst"}
 
 \* Dead-field normalisation (state-space reduction only; the lock-step trace spec uses the raw BNext): registers that
 \* are rewritten before they are read again are zeroed, and so is the monitor's memory of a finished access.
@@ -78,6 +96,7 @@ Tick ==
      /\ obs' = NormO(res.s)
      /\ lastbad' = res.bad
      /\ wcnt' = IF res.s.pend THEN wcnt + 1 ELSE 0
+     /\ seen' = IF COVER THEN seen \cup Goals ELSE seen
      /\ mem' = mem1
      /\ q' = q2
      /\ m' \in NextMaster(res.s)
@@ -100,9 +119,14 @@ Quiescent == r.fsm = "CMD" /\ (~Narrow \/ r.wr_valid = 0) /\ q = <<>> /\ ~obs.pe
 MemAllowed == Quiescent => \A B \in 0..NA - 1 : mem[B] \in BmGet(obs.mem, B)
 AckWithinBound == wcnt <= WMAX
 OneOutstanding == Len(q) <= 1
-\* vacuity guards: these must be REACHABLE (checked as violated "invariants" by the cover configuration)
-CoverCacheHit == ~(r.fsm = "CMD" /\ m.cyc = 1 /\ m.stb = 1 /\ m.we = 0 /\ r.wr_valid = 0 /\ DwHit(R, r, [a |-> m.a]))
-CoverAbortRead == ~(r.fsm = "READ_DATA" /\ r.aborted = 1)
-CoverMerge == ~(r.fsm = "CMD" /\ r.wr_valid = 1 /\ m.cyc = 1 /\ m.stb = 1 /\ m.we = 1 /\ r.wr_addr = m.a \div R /\ r.wr_sel[DwMod(m.a, R) + 1] = 0)
-CoverMaybe == ~(\E B \in DOMAIN obs.mem : Cardinality(obs.mem[B]) > 1)
+CovG(g) == g \notin seen
+Cov1 == CovG("cache-hit")
+Cov2 == CovG("aborted-read")
+Cov3 == CovG("merge")
+Cov4 == CovG("flush-other-word")
+Cov5 == CovG("flush-on-cyc-low")
+Cov6 == CovG("write-cmd-after-drop")
+Cov7 == CovG("burst")
+Cov8 == CovG("maybe-written-byte")
+CoverAll == ~(AllGoals \subseteq seen)
 ====
